@@ -10,6 +10,27 @@ CLAIMED = {
  "C18": ("tables", "constant-table extraction + exhaustive oracle comparison; role-based AST dataflow (go/ast + go/types)", "DESIGN.md 4/C18",
          "Exhaustive static decision of the finite tables (256 byte values for complement/transcribe, all 16 IUPAC query letters for Match) against an IUPAC oracle in the checker, plus structural rules LOOKUP/WIRE/LITERAL/FOLD on the resolved program. Decides the table and wiring clauses of the property, not regexp or suffix-array semantics.",
          "Trusts bytes.IndexByte/ToLower, regexp, index/suffixarray, sort as documented; the translation helper is checked by roles (LOOKUP)."),
+ "C02": ("conserve", "structural conservation rules on the syntax tree with resolved objects: per-iteration sink counting (FMAP), definite assignment of freshly made slices (FILL)", "DESIGN.md 4/C02",
+         "Static decision of two necessary conditions of Insert/Embed: every host and guest feature reaches the result exactly once with its key and qualifiers and a location computed from its own (FMAP, 4 loops), and every part of a multi-part location is transformed by Shift/Expand (FILL, 4 sites). Does not decide the placement arithmetic.",
+         "Trusts that WithFeatures installs the table it is given; idioms outside the enumerated ones inside the anchors are reported undecided."),
+ "C03": ("conserve+orders", "FMAP/FILL structural rules, dominance (MUST-PASS) on go/cfg, and exact abstract interpretation of the comparison-only interval predicates over all orderings of their inputs", "DESIGN.md 4/C03",
+         "Static decision that Delete and Slice carry every (surviving) feature over exactly once (FMAP), every part of a multi-part location is expanded (FILL), a slice is always marked linear (MUST-PASS), and that rangeOverlap/rangeWithin - which decide which features survive Erase/Slice - equal the interval definitions for every ordering of their four inputs (75 preorders, exhaustive for the comparison-only fragment). Does not decide the coordinate arithmetic.",
+         "The ordering enumeration is exact only because the predicates touch their inputs through comparisons and swaps alone; the evaluator aborts (undecided) on anything else."),
+ "C04": ("conserve", "FMAP/FILL structural rules on the syntax tree", "DESIGN.md 4/C04",
+         "Static decision that Rotate carries every feature over exactly once with key and qualifiers (FMAP) and that every part of a multi-part location is normalised (FILL). Does not decide the modular arithmetic or the origin-spanning split.",
+         "Same trusted base as C02."),
+ "C05": ("conserve", "FILL definite-assignment rule (incl. the two-pointer idiom, total iff l <= r), FMAP conservation rule", "DESIGN.md 4/C05",
+         "Static decision of 'no part of a multi-part location is lost' as definite assignment of the reversed slice in Joined/Ordered.Reverse, Regions.Complement/Locate and the Region() builders (FILL, 7 sites), and that Reverse, Complement and Concat conserve every feature (FMAP). Does not decide the mirroring arithmetic.",
+         "Same trusted base as C02; the involution of the complement alphabet is decided under C18."),
+ "C09": ("orders", "exact abstract interpretation over the finite domain of orderings (total preorders) of the inputs of comparison-only functions", "DESIGN.md 4/C09",
+         "Static, exhaustive decision that BySegment.Less - the order Minimize and Search/Match sort by - is a strict weak order by (low end, high end) on orientation-normalised segments for all 4683 orderings of six endpoints, and that Min/Max/Compare are correct. Necessary for Minimize to merge every overlap regardless of input order; the merge loop itself is not decided.",
+         "Exact because Less touches coordinates only through comparisons and swaps (checked by the evaluator); trusts sort.Sort given a strict weak order."),
+ "C15": ("conserve", "reaching-definitions provenance analysis on go/cfg with resolved callees", "DESIGN.md 4/C15",
+         "Static decision of INPUT-COORD for the six multi-site edit commands: every definition of the locator's argument that reaches the call is the record as scanned, never the result of an edit operation. Necessary for 'measured in the input's coordinates'; order of application and de-duplication are value-level and not decided.",
+         "Edit operations are the exported sequence operations of package gts (also through function-valued locals); Copy/WithTopology/WithInfo preserve coordinates."),
+ "C19": ("orders+conserve", "exact abstract interpretation over orderings (rangeCompare); enumerated-idiom structural rule (FILTER)", "DESIGN.md 4/C19",
+         "Static, exhaustive decision that rangeCompare - the comparison every leaf of LocationLess bottoms out in - is a consistent three-way comparator for all 4683 orderings of six endpoints, and that FeatureSlice.Filter keeps an element exactly on the true edge of the filter call and returns the kept elements unmodified in table order. Selector grammar, LocationLess's recursion and the binary search are not decided.",
+         "Exact for the comparison-only fragment; FILTER recognises the two idioms present or plausible (index list, direct append)."),
  "C13": ("integrity", "must-check / must-pass-through / ordering rules: typestate along go/cfg paths, error-handling idiom matching, sibling cross-check of Open vs CreateLevel, constant-factor agreement", "DESIGN.md 4/C13",
          "Static decision that cache.Open can return a nil error only after the header was read in full (INT-4), the body digest covers every byte after the header (INT-3), all three digests were compared with the right operands and no error dropped (INT-1/2), the file name binds both key digests identically in reader and writer (INT-5), the writer finalises the header last with a consistent layout (INT-6), failed finalisation removes the entry (INT-8) and replay happens only after a valid open (REPLAY). Decides the structural necessary conditions, not the byte-level enumeration of corruptions.",
          "Trusts sha1 collision resistance, compress/flate's round trip, bytes.Equal/io.Copy/os.File semantics and the file system; field and method names of cmd/cache are anchors."),
